@@ -255,7 +255,7 @@ fn emit_token_comments<'a, D, A>(
     token_index: usize,
     ctx: &PrintContext,
     allocator: &'a D,
-) -> (DocBuilder<'a, D, A>, DocBuilder<'a, D, A>, bool)
+) -> CommaComments<'a, D, A>
 where
     D: DocAllocator<'a, A>,
     D::Doc: Clone,
@@ -263,28 +263,40 @@ where
     let mut lead = allocator.nil();
     let mut trail = allocator.nil();
     let mut ends_line = false;
+    let mut any = false;
     if let Some(idx) = find_preparsed_index(token_index, ctx.preparsed) {
         for trivia in ctx.preparsed.get_leading_trivia(idx, ctx.tokens) {
+            any |= matches!(
+                trivia.kind,
+                TokenKind::SingleLineComment | TokenKind::MultiLineComment
+            );
             lead = lead.append(emit_trivia(trivia, ctx.source, allocator));
         }
         for trivia in ctx.preparsed.get_trailing_trivia(idx, ctx.tokens) {
             match trivia.kind {
-                TokenKind::SingleLineComment => ends_line = true,
-                TokenKind::MultiLineComment => ends_line = false,
+                TokenKind::SingleLineComment => {
+                    ends_line = true;
+                    any = true;
+                }
+                TokenKind::MultiLineComment => {
+                    ends_line = false;
+                    any = true;
+                }
                 _ => {}
             }
             trail = trail.append(emit_trivia(trivia, ctx.source, allocator));
         }
     }
-    (lead, trail, ends_line)
+    (lead, trail, ends_line, any)
 }
 
-/// Comments around one re-created comma: before it, after it, and whether the latter end the line.
-type CommaComments<'a, D, A> = (DocBuilder<'a, D, A>, DocBuilder<'a, D, A>, bool);
+/// Comments around one re-created comma: before it, after it, whether the latter end the line,
+/// and whether there is any comment at all.
+type CommaComments<'a, D, A> = (DocBuilder<'a, D, A>, DocBuilder<'a, D, A>, bool, bool);
 
 /// `item , item , item` with the commas re-created: `seps[i]` holds the comments of the comma
 /// that followed item i in the source, `gap` is what follows a comma (a soft break or a space).
-/// A trailing comma is dropped, its comments are kept.
+/// A trailing comma is dropped unless comments are attached to it.
 fn join_list_items<'a, D, A>(
     items: Vec<DocBuilder<'a, D, A>>,
     seps: &[CommaComments<'a, D, A>],
@@ -302,15 +314,18 @@ where
         doc = doc.append(item);
         let last = i + 1 == n_items;
         match (seps.get(i).cloned(), last) {
-            (Some((lead, trail, ends_line)), false) => {
+            (Some((lead, trail, ends_line, _)), false) => {
                 doc = doc.append(lead).append(allocator.text(",")).append(trail);
                 if !ends_line {
                     doc = doc.append(gap.clone());
                 }
             }
             (None, false) => doc = doc.append(allocator.text(",")).append(gap.clone()),
-            (Some((lead, trail, _)), true) => doc = doc.append(lead).append(trail),
-            (None, true) => {}
+            // a trailing comma is dropped, unless comments hang on it: they stay attached to it
+            (Some((lead, trail, _, true)), true) => {
+                doc = doc.append(lead).append(allocator.text(",")).append(trail)
+            }
+            (Some(_), true) | (None, true) => {}
         }
     }
     doc
@@ -329,7 +344,7 @@ fn push_comma_comments<'a, D, A>(
 {
     let comments = emit_token_comments(token_index, ctx, allocator);
     while seps.len() + 1 < n_items {
-        seps.push((allocator.nil(), allocator.nil(), false));
+        seps.push((allocator.nil(), allocator.nil(), false, false));
     }
     if seps.len() < n_items {
         seps.push(comments);
